@@ -70,6 +70,7 @@ var constructs = []construct{
 	{"bogus-bang", "<!", "", 0, refhtml.TagComment, []string{">", "a", " ", "<", "/"}, endStr(">")},
 	{"bogus-question", "<?", "", 0, refhtml.TagComment, []string{">", "a", " ", "<", "?"}, endStr(">")},
 	{"doctype", "<!", "doctype ", 0, refhtml.DocType, []string{">", "a", " ", "<", "\""}, endStr(">")},
+	{"doctype-public", "<!", "doctype html ", 0, refhtml.DocType, []string{">", "PUBLIC ", "SYSTEM ", "\"", "'", "a"}, endStr(">")},
 	{"squote-value", "<a b='", "", 2, refhtml.AttrValue, []string{"'", "\"", ">", "a", "\\"}, endStr("'")},
 	{"dquote-value", "<a b=\"", "", 2, refhtml.AttrValue, []string{"\"", "'", ">", "a", "\\"}, endStr("\"")},
 	{"bquote-value", "<a b=`", "", 2, refhtml.AttrValue, []string{"`", "'", ">", "a", "\\"}, endStr("`")},
@@ -81,7 +82,7 @@ var constructs = []construct{
 // c17Wide: the union of every construct's terminator / decoy bytes. A scanner that starts honouring
 // another construct's conventions (NUL tolerance, backslash escapes, a different closer) shows up
 // when its bodies are drawn from this alphabet.
-var c17Wide = []string{"%", ">", "]", "-", "!", "\x00", "'", "\"", "`", "\\", "a", " ", "<"}
+var c17Wide = []string{"%", ">", "]", "-", "!", "\x00", "'", "\"", "`", "\\", "a", " ", "<", "\xef\xbb\xbf"}
 
 var c17Tails = []string{"", "<x>", "<script>"}
 
@@ -171,6 +172,43 @@ func evalC17Term(w *fw.W, body, aux string) {
 	w.Outcome(uint64(idx+1)<<8 | uint64(len(toks)))
 }
 
+// evalC17Virtual: in the three quoted start contexts the input IS the attribute value: the first token
+// starts at offset 0 and ends at the first occurrence of the context's quote.
+func evalC17Virtual(w *fw.W, body, aux string) {
+	c := int(aux[0] - '0')
+	q := []byte{0, 0, '\'', '"', '`'}[c]
+	toks, _ := lib.VerifH5Tokens(body, c)
+	if body == "" {
+		return
+	}
+	i := strings.IndexByte(body, q)
+	wantLen := i
+	if i < 0 {
+		wantLen = len(body)
+	}
+	w.Traces(1)
+	if len(toks) == 0 || toks[0].Type != refhtml.AttrValue || toks[0].Off != 0 || toks[0].Len != wantLen {
+		w.Fail("first-terminator", fmt.Sprintf("start context %s: first token %s, the value must be ATTR_VALUE@0+%d (first %q)", htmlCtxName[c], fmtImplToks(toks), wantLen, q))
+		return
+	}
+	if i >= 0 {
+		w.NonTrivial()
+		// what follows the closing quote must tokenize as after an empty value in the same context
+		rest := body[i:]
+		t2, _ := lib.VerifH5Tokens(rest, c)
+		a, b := "", ""
+		if len(toks) > 1 {
+			a = shiftToks(toks[1:], 0)
+		}
+		if len(t2) > 1 {
+			b = shiftToks(t2[1:], i)
+		}
+		if a != b {
+			w.Fail("resume", fmt.Sprintf("start context %s: tokens after the closing quote %q differ from those after an empty value %q", htmlCtxName[c], a, b))
+		}
+	}
+}
+
 func init() {
 	var cuts []string
 	fw.Register(&fw.Check{
@@ -178,7 +216,7 @@ func init() {
 		QuickS:    60,
 		ThoroughS: 600,
 		Rule: "(a) every string over the HTML alphabets up to the completed level, in 5 contexts: token bounds/order/count invariants on the real token stream; " +
-			"(b) for each of 11 delimited constructs (incl. case variants of the CDATA marker, which are NOT CDATA), EVERY body over the construct's terminator+decoy alphabet up to length 8 (quick) / 9 (thorough) x 3 tails: " +
+			"(b) for each of 12 delimited constructs (incl. case variants of the CDATA marker, which are NOT CDATA), EVERY body over the construct's terminator+decoy alphabet up to length 8 (quick) / 9 (thorough) x 3 tails: " +
 			"the construct token must start after the opener, end at the first terminator found by an independent search, and tokenizing must resume as after an empty construct; " +
 			"non-trivial = more than one token (a) / body contains a terminator (b)",
 		Assumptions: []string{"first-terminator oracles are plain forward searches (strings.Index / explicit pattern for comments) independent of the tokenizer"},
@@ -195,7 +233,7 @@ func init() {
 				Run: func(w *fw.W) { w.Trie(alpha.H2, 1, w.Pick(4, 5)) }, Eval: evalC17Order},
 			{Name: "order-corpus-cuts", Space: "all fixture cuts x 5 contexts", Share: 1,
 				Run: func(w *fw.W) { w.Each(len(cuts), func(i int) { w.Item(cuts[i], "") }) }, Eval: evalC17Order},
-			{Name: "first-terminator", Space: "9 constructs x every body over its 5-symbol terminator/decoy alphabet, length <=8 (quick) / <=9 (thorough) x 3 tails", Share: 4,
+			{Name: "first-terminator", Space: "10 constructs x every body over its 5-symbol terminator/decoy alphabet, length <=8 (quick) / <=9 (thorough) x 3 tails", Share: 4,
 				Run: func(w *fw.W) {
 					maxL := w.Pick(8, 9)
 					w.Each(len(constructs)*len(c17Tails), func(i int) {
@@ -217,7 +255,25 @@ func init() {
 						rec("", 0)
 					})
 				}, Eval: evalC17Term},
-			{Name: "first-terminator-wide", Space: "11 constructs x every body over the 13-symbol union alphabet of all terminator/escape/decoy bytes, length <=4 (quick) / <=5 (thorough) x 3 tails", Share: 3,
+			{Name: "first-terminator-start-contexts", Space: "the three quoted start contexts x every body over the 14-symbol union alphabet (incl. the BOM), length <=4 (quick) / <=5 (thorough)", Share: 2,
+				Run: func(w *fw.W) {
+					maxL := w.Pick(4, 5)
+					w.Each(3, func(ci int) {
+						aux := string([]byte{byte('2' + ci)})
+						var rec func(b string, d int)
+						rec = func(b string, d int) {
+							if d == maxL || w.Expired() {
+								return
+							}
+							for _, a := range c17Wide {
+								w.Item(b+a, aux)
+								rec(b+a, d+1)
+							}
+						}
+						rec("", 0)
+					})
+				}, Eval: evalC17Virtual},
+			{Name: "first-terminator-wide", Space: "12 constructs x every body over the 14-symbol union alphabet of all terminator/escape/decoy bytes, length <=4 (quick) / <=5 (thorough) x 3 tails", Share: 3,
 				Run: func(w *fw.W) {
 					maxL := w.Pick(4, 5)
 					w.Each(len(constructs)*len(c17Tails), func(i int) {
